@@ -43,7 +43,7 @@ ASSUMPTIONS = HOST_ASSUMPTIONS + [
     "(what USBStreamInEndpoint sets)",
 ]
 BOUNDS = "BMC from reset; max_packet_size 2,3 (quick) / 2,3,4 (thorough); endpoint number 3; free layer K=16 (14) quick / " \
-         "22 (20) thorough, restricted layer (tx.ready=1, no flush, no broadcast ACK) K=18/24; tracked indices k (4 bit), j (2 bit) symbolic"
+         "22 (20) thorough, restricted layers (no broadcast ACK K=22; tx.ready=1, no flush, no broadcast ACK K=24) in the thorough tier only; tracked indices k (4 bit), j (2 bit) symbolic"
 OUTSIDE = "max_packet_size=1 (depth-1 Memory: zero-width address not supported by the NIR translator); discard; transfers longer than the depth allows (about K/3 bytes); max packet sizes > 4; PHY-level framing " \
           "(CRC16, PID byte) which is C03's subject; behaviour after an illegal host sequence"
 
@@ -275,7 +275,7 @@ def queries(tier):
         if primary and not quick:
             qs.append(Query(f"bmc_nofack_{tag}", f, K, timeout=900, covers=[], asserts=["any"], layer={"fack": 0},
                             desc=f"{kind} mps={mps}: restricted layer: no broadcast ACKs for other devices/endpoints"))
-        if primary or not quick:
+        if not quick:
             qs.append(Query(f"bmc_ready_{tag}", f, 18 if quick else 24, covers=[], asserts=["any"], required=quick,
                             layer={"tx_ready": 1, "flush": 0, "fack": 0}, timeout=900,
                             desc=f"{kind} mps={mps}: restricted layer tx.ready=1 (after the generator's 2 PID cycles), flush=0, "
